@@ -190,19 +190,29 @@ def has_one_element_field(planes):
 
 def gen_chain(rng, mode, kmax=6, nmax=3):
     for _ in range(200):
-        n = int(rng.integers(1, nmax + 1))
-        kind = 'pupil' if rng.integers(0, 2) else 'plane'
+        n = int(rng.integers(1, nmax + 2))
         shape = _shape(rng, kmax)
         planes = []
+        pt = 'none'          # wavefront plane type; the kind of every plane is drawn among those _mul_ptype_table admits
         for i in range(n):
             sh = shape if rng.integers(0, 4) else _shape(rng, kmax)
             force = 'default' if rng.integers(0, 8) == 0 else None
-            planes.append(_plane(rng, mode, sh, kind, force))
+            legal = {'none': ['plane', 'plane', 'pupil', 'pupil', 'image', 'tilt', 'plane_pupil'],
+                     'pupil': ['pupil', 'pupil', 'tilt', 'plane_pupil', 'plane_pupil'], 'image': ['image', 'image', 'tilt']}[pt]
+            kind = legal[int(rng.integers(0, len(legal)))]
+            if kind == 'tilt':
+                pl = _plane(rng, mode, sh, 'tilt', 'default')
+                pl['tilt'] = [float(np.round(rng.normal(0, 1e-3), 6)), float(np.round(rng.normal(0, 1e-3), 6))]
+            else:
+                pl = _plane(rng, mode, sh, kind, force)
+            planes.append(pl)
+            pt = {'plane': pt, 'tilt': pt, 'pupil': 'pupil', 'plane_pupil': 'pupil', 'image': 'image'}[kind]
         if has_one_element_field(planes): continue
         # pixel scales: wavefront and planes None / equal / (rarely) different
         base = [int(rng.integers(1, 4)), int(rng.integers(1, 4))] if rng.integers(0, 3) == 0 else [int(rng.integers(1, 4))] * 2
         wpx = base if rng.integers(0, 3) == 0 else None
         for pl in planes:
+            if pl['kind'] == 'tilt': continue
             r = int(rng.integers(0, 24))
             if r < 12: pl['px'] = list(base)
             elif r == 12: pl['px'] = [base[0], base[1] + 1]
@@ -310,6 +320,9 @@ def build_plane(pl, mode, wl):
     px = None if pl['px'] is None else tuple(float(x) for x in pl['px'])
     if pl['kind'] == 'pupil':
         return lentil.Pupil(amplitude=amp, opd=opd, mask=mask, pixelscale=px, focal_length=pl['fl'])
+    if pl['kind'] == 'tilt': return lentil.Tilt(x=pl['tilt'][0], y=pl['tilt'][1])
+    if pl['kind'] == 'image': return lentil.Image(amplitude=amp, opd=opd, mask=mask, pixelscale=px)
+    if pl['kind'] == 'plane_pupil': return lentil.Plane(amplitude=amp, opd=opd, mask=mask, pixelscale=px, ptype=lentil.pupil)
     return lentil.Plane(amplitude=amp, opd=opd, mask=mask, pixelscale=px)
 
 def _cells(x, mode):
@@ -341,7 +354,7 @@ def wf_out(w, c):
     if 'insert' in c and all(f.data.ndim == 2 for f in w.data):
         out = np_data(c['insert']['out']).real.copy()
         r = w.insert(out, c['insert']['weight'])
-        o['insert'] = arr_out(r, mode)
+        o['insert'] = arr_out(out, mode)          # the caller's array after the call
         o['insert_same_object'] = r is out
     return o
 
@@ -380,7 +393,7 @@ def plane_req(pl, mode):
     L = plane_mask_layers(pl)
     if isinstance(L, int): mask = {'scalar': L}
     else: mask = {'shape': [int(s) for s in L[0].shape], 'layers': [[int(x) for x in lay.ravel()] for lay in L]}
-    r = {'kind': pl['kind'], 'amp': attr_req(pl['amp'], mode), 'opd': attr_req(pl['opd'], mode), 'mask': mask, 'px': pl['px']}
+    r = {'kind': 'pupil' if pl['kind'] == 'pupil' else 'plane', 'amp': attr_req(pl['amp'], mode), 'opd': attr_req(pl['opd'], mode), 'mask': mask, 'px': pl['px']}
     if pl['kind'] == 'pupil': r['fl'] = vlib.fbits(pl['fl'])
     return r
 
@@ -580,6 +593,7 @@ def oracle(c, io):
         tb = (-(S0 // 2), -(S0 // 2) + S0 - 1, -(S1 // 2), -(S1 // 2) + S1 - 1)
         F = _canvas(io['data'], tb, _np_arr)
         want = out + c['insert']['weight'] * _nsq(F)
+        if io.get('insert_same_object') is False: return 'Wavefront.insert did not accumulate into (and return) the caller\'s array'
         if not _close(_np_arr(io['insert']), want, mode, _scale(c, 'insert')): return 'insert(out, weight) did not add weight * |field|^2 and nothing else'
     return None
 
